@@ -441,6 +441,7 @@ impl ToOrdinal {
             // remove any block separators
             let number = match clean_number(number, &block_separators) {
                 None => return Some(String::from(number)),
+                Some(num) if num.is_empty() => return Some(String::from(number)),   // nothing but block separators
                 Some(num) => num,
             };
     
